@@ -119,13 +119,14 @@ type VC struct {
 	panicking   bool
 	recovered   Term
 	topFrame    *Frame
+	lastRet     map[string][]Val
 }
 
 func newVC(eng *Engine, fn *ssa.Function, con *Contract, known map[string]string, order []string) *VC {
 	vc := &VC{eng: eng, fn: fn, con: con, declSet: map[string]bool{}, heapSort: map[string]string{},
 		heapKnown: map[string]bool{}, strConsts: map[string]string{}, typeIDs: map[string]int{},
 		notes: map[string]bool{}, unsup: map[string]bool{}, oblNames: map[string]int{}, callN: map[string]int{},
-		ghostSeen: map[string]bool{}, fieldCodes: map[string]int{}, statics: map[string]int{}}
+		ghostSeen: map[string]bool{}, fieldCodes: map[string]int{}, statics: map[string]int{}, lastRet: map[string][]Val{}}
 	if con != nil && con.Strings == "smt" {
 		vc.smtStr = true
 	}
